@@ -8,6 +8,9 @@
 //	cp <n> <col> <entry>...     CheckProposal with validators 0..n-1, certificate entries,
 //	                            collector (signer of the proposal) = <col>  -> accept|reject
 //	cv <n> <entry>...           CheckVote (signature part)          -> accept|reject
+//	cpi <p> <A> / <B>           two CheckProposal calls on the one instance, B running while A is held between two
+//	                            signature entries (conc.go)           -> <verdict A> <verdict B>
+//	conc <seed> <n> <g> <r>     g calls at once, r rounds, against the verdicts of the same calls made alone -> -
 //
 // entry = <addr><kind>: v valid signature by <addr> over the certified id; w signature by <addr>
 // over another id; c corrupted signature; m claims <addr> but key+signature of an outsider.
@@ -146,7 +149,9 @@ func newRules() *bft.DefaultSaftyRules {
 		OrphanList: list.New(), OrphanMap: map[string]bool{}, Log: xvlib.Logger("qctree")}
 	a := acct(0)
 	addr := &cctx.Address{Address: a.Address, PrivateKeyStr: a.PriJSON, PublicKeyStr: a.PubJSON, PrivateKey: a.Pri, PublicKey: a.Pub}
-	return &bft.DefaultSaftyRules{Crypto: cCrypto.NewCBFTCrypto(addr, xvlib.Crypto()), QcTree: tree, Log: xvlib.Logger("safety")}
+	// the crypto client is the real one behind yield points (conc.go); it never pauses unless a cpi line arms it
+	pauser.CryptoClient = xvlib.Crypto()
+	return &bft.DefaultSaftyRules{Crypto: cCrypto.NewCBFTCrypto(addr, pauser), QcTree: tree, Log: xvlib.Logger("safety")}
 }
 
 func quorum(n int) int { return n - (n-1)/3 - 1 }
@@ -182,6 +187,10 @@ func exec(line string, out *xvlib.Out) string {
 		p, _ := strconv.ParseInt(w[1], 10, 64)
 		l, _ := strconv.ParseInt(w[2], 10, 64)
 		return strconv.FormatBool(rules.CheckPacemaker(p, l))
+	case "cpi":
+		return execCpi(w, line, out)
+	case "conc":
+		return execConc(w, line, out)
 	case "cp", "cpy":
 		curID = certID
 		if w[0] == "cpy" {
@@ -369,6 +378,8 @@ func main() {
 			}
 		})
 	}
+	// 2b. overlapping calls on the one instance (conc.go)
+	genOverlap(rng, *tier == "thorough", run)
 	// 3. random multisets (shuffled order, random collector) for n up to 10
 	for i := 0; i < randCases; i++ {
 		n := 1 + rng.Intn(10)
@@ -432,7 +443,7 @@ func main() {
 		}
 	}
 	out.Stats.Exhaustive = false
-	out.Stats.Rule = fmt.Sprintf("thr/pm: exhaustive boxes; cp: all multisets of ≤ n+%d entries over the entry alphabet (valid member i, 2 non-members, wrong-id/corrupted/key-mismatch on members 0,1) for n ≤ %d, plus %d random shuffled multisets for n ≤ 10 near the threshold; a case is non-trivial if it has ≥1 entry, distinct by op line", exExtra, exN, randCases)
+	out.Stats.Rule = fmt.Sprintf("thr/pm: exhaustive boxes; cp: all multisets of ≤ n+%d entries over the entry alphabet (valid member i, 2 non-members, wrong-id/corrupted/key-mismatch on members 0,1) for n ≤ %d, plus %d random shuffled multisets for n ≤ 10 near the threshold; overlapping calls on the one instance: cpi = a second call run while the first is held before / after its k-th signature verification (every pause point; first call one member short of the quorum with a repeated / re-signed / respelled entry, exact quorum, junk; second call empty / disjoint / same members / full), conc = 16-32 calls at once against their verdicts alone; a case is non-trivial if it has ≥1 entry, distinct by op line", exExtra, exN, randCases)
 	ks := xvlib.SortedKeys(out.Stats.Distribution)
 	sort.Strings(ks)
 }
